@@ -357,6 +357,7 @@ func runC01(c *Ctx) {
 		c.St.Eval(t.Token(), t.Depth() >= 1 && hasNonInt(t))
 		c.St.Count(fmt.Sprintf("tree_depth_%d", t.Depth()))
 	}
+	c.fileStratum(20)
 }
 
 func hasNonInt(t *Tree) bool {
@@ -566,18 +567,7 @@ func runC03(c *Ctx) {
 		c.parseLine(root, doc, "valid")
 		c.St.Eval(doc, strings.ContainsAny(doc, `\.eE`) || strings.Count(doc, "[")+strings.Count(doc, "{") > 1)
 	}
-	// escapes the strict grammar rejects or that denote no Unicode string: truncated \u, bad hex, lone surrogates,
-	// a backslash before the closing quote, unknown escapes; and the lenient repairs (missing comma after a nested value)
-	for _, body := range []string{`\u12`, `\u`, `\u123`, `\u12G4`, `\ud800`, `\udc00`, `\ud800x`, `\ud800\u0041`, `\udc00\ud800`, `\ud83d\ud83d\ude00`, `\x41`, `\a`, `\'`, `\0`,
-		`a\`, `\\\`, `\ud800\`, `\ude00\ud83d`, `\uD800\uDBFF`, `ok\u00e9`} {
-		c.parseLine('L', `["`+body+`"]`, "-")
-		c.parseLine('L', `["`+body+`","x"]`, "-")
-		c.parseLine('O', `{"`+body+`":1}`, "-")
-		c.parseLine('O', `{"k":"`+body+`"}`, "-")
-	}
-	for _, doc := range []string{`{"a":[1]"b":2}`, `{"a":{}"b":2}`, `{"a":[1] "b":2}`, `{"a":[1]x}`, `{"a":[1],}`, `{"a":[1]}}`, `[[1]2]`, `[{}"x"]`, `{"a":[1]:}`} {
-		c.parseLine("LO"[map[bool]int{true: 0, false: 1}[doc[0] == '[']], doc, "-")
-	}
+	c.escapeCorners()
 	// a parse result is a fresh tree: mutating an earlier result never shows in a later parse
 	c.M.Case("parse-mutate-parse")
 	for rep := 0; rep < 3; rep++ {
@@ -614,6 +604,7 @@ func runC03(c *Ctx) {
 		c.parseLine('L', "[ "+n+" , "+n+"\n]", "valid")
 		c.St.Eval("num:"+n, true)
 	}
+	c.fileStratum(20)
 }
 
 // ---------------------------------------------------------------- C04
@@ -744,71 +735,156 @@ func runC04(c *Ctx) {
 		c.parseLine('L', s, "-")
 		c.parseLine('O', s, "-")
 	}
+	c.escapeCorners()
 	// ParseFile
+	c.fileStratum(c.N(100, 1000))
+}
+
+// escapeCorners: escapes the strict grammar rejects or that denote no Unicode string (truncated \u, bad hex, lone
+// surrogates at every distance from the closing quote, a backslash before the closing quote, unknown escapes), and the
+// lenient repairs (missing comma after a nested value).  Whatever the verdict, the parser has to return.
+func (c *Ctx) escapeCorners() {
+	// escapes the strict grammar rejects or that denote no Unicode string: truncated \u, bad hex, lone surrogates,
+	// a backslash before the closing quote, unknown escapes; and the lenient repairs (missing comma after a nested value)
+	for _, body := range []string{`\u12`, `\u`, `\u123`, `\u12G4`, `\ud800`, `\udc00`, `\ud800x`, `\ud800\u0041`, `\udc00\ud800`, `\ud83d\ud83d\ude00`, `\x41`, `\a`, `\'`, `\0`,
+		`a\`, `\\\`, `\ud800\`, `\ude00\ud83d`, `\uD800\uDBFF`, `ok\u00e9`, `\ud83d`, `\udbff`, `\ud83dx`, `\ud83dxy`, `\ud83d\`, `\ud83d\u`, `\ud83d\ud`, `\ud83d\ude0`,
+		`x\ud83d`, `\ud83d\n`, `\ud83d\\`, `\ud83d\ud83d`, `\ud83d\ude00\ud83d`, `\udbff\udfff\udbff`} {
+		c.parseLine('L', `["`+body+`"]`, "-")
+		c.parseLine('L', `["`+body+`","x"]`, "-")
+		c.parseLine('O', `{"`+body+`":1}`, "-")
+		c.parseLine('O', `{"k":"`+body+`"}`, "-")
+	}
+	for _, doc := range []string{`{"a":[1]"b":2}`, `{"a":{}"b":2}`, `{"a":[1] "b":2}`, `{"a":[1]x}`, `{"a":[1],}`, `{"a":[1]}}`, `[[1]2]`, `[{}"x"]`, `{"a":[1]:}`} {
+		c.parseLine("LO"[map[bool]int{true: 0, false: 1}[doc[0] == '[']], doc, "-")
+	}
+}
+
+// fileStratum: ParseFile must be ParseObject of the file's bytes (checked here), and both must be what the model's
+// parseFile says (checked by the driver).  Deterministic documents first: sizes beyond every buffer a reader
+// might use, blank space / text before and after the root, line endings, a byte-order mark, ill-formed bytes;
+// then nRandom random ones.
+func (c *Ctx) fileStratum(nRandom int) {
+	r := c.R
+	opts := &TreeOpts{MaxDepth: 3, MaxWidth: 4}
 	dir, err := os.MkdirTemp("", "vharness")
-	if err == nil {
-		defer os.RemoveAll(dir)
-		fileLine := func(kind string, content string, path string) {
-			var res string
-			func() {
-				defer func() {
-					if rr := recover(); rr != nil {
-						res = "panic"
-					}
-				}()
-				o, e := at.ParseFile(path)
-				switch {
-				case o != nil && e == nil:
-					res = "ok " + treeOf(o).Token()
-				case o == nil && e != nil:
-					if kind == "bytes" {
-						res = errKind(e)
-					} else {
-						res = "err io -"
-					}
-				case o == nil:
-					res = "neither"
-				default:
-					res = "both"
-				}
-				if kind == "bytes" {
-					// must be exactly what ParseObject returns for the bytes
-					if want := onceParse('O', content); want != res {
-						res = "file-differs-from-ParseObject:" + hx(want)
-					}
+	if err != nil {
+		return
+	}
+	defer os.RemoveAll(dir)
+	fileLine := func(kind string, content string, path string) {
+		var res string
+		func() {
+			defer func() {
+				if rr := recover(); rr != nil {
+					res = "panic"
 				}
 			}()
-			c.fn("file", kind, hex.EncodeToString([]byte(content)), res)
-		}
-		for i := 0; i < c.N(100, 1000); i++ {
-			var content string
-			switch r.Intn(6) {
-			case 0:
-				content = r.Container(opts, '{').Build().(at.Object).String()
-			case 1:
-				g := &jsonGen{r: r}
-				g.object(0)
-				content = "\n" + g.sb.String()
-			case 2:
-				content = r.Container(opts, '{').Build().(at.Object).FormatString(2)
-				if len(content) > 2 {
-					content = content[:r.Intn(len(content))]
+			o, e := at.ParseFile(path)
+			switch {
+			case o != nil && e == nil:
+				res = "ok " + treeOf(o).Token()
+			case o == nil && e != nil:
+				if kind == "bytes" {
+					res = errKind(e)
+				} else {
+					res = "err io -"
 				}
-			case 3:
-				content = "{\"a\":\n\n x}"
+			case o == nil:
+				res = "neither"
 			default:
-				// ill-formed UTF-8 between the brackets: ParseFile must reject it exactly as ParseObject does
-				content = r.Container(opts, '{').Build().(at.Object).String()
-				pos := 1 + r.Intn(len(content)-1)
-				content = content[:pos] + []string{"\x80", "\xC3", "\xE2\x82", "\xC0\xAF", "\xED\xA0\x80", "\xFF"}[r.Intn(6)] + content[pos:]
+				res = "both"
 			}
-			p := filepath.Join(dir, "f"+strconv.Itoa(i)+".json")
-			os.WriteFile(p, []byte(content), 0o644)
-			fileLine("bytes", content, p)
-		}
-		fileLine("missing", "", filepath.Join(dir, "does-not-exist.json"))
-		fileLine("dir", "", dir)
+			if kind == "bytes" {
+				// must be exactly what ParseObject returns for the bytes
+				if want := onceParse('O', content); want != res {
+					res = "file-differs-from-ParseObject:" + hx(want)
+				}
+			}
+		}()
+		c.fn("file", kind, hex.EncodeToString([]byte(content)), res)
 	}
+	n := 0
+	put := func(content string) {
+		p := filepath.Join(dir, "f"+strconv.Itoa(n)+".json")
+		n++
+		os.WriteFile(p, []byte(content), 0o644)
+		fileLine("bytes", content, p)
+	}
+	c.M.Case("file-documents")
+	// one line longer than 4 KiB, 64 KiB (bufio's default buffer and token limit) and, in the thorough tier, 1 MiB
+	for _, size := range []int{5000, 70000, c.N(70001, 1100000)} {
+		var sb strings.Builder
+		sb.WriteString(`{"k":[`)
+		for i := 0; sb.Len() < size; i++ {
+			if i > 0 {
+				sb.WriteByte(',')
+			}
+			sb.WriteString(strconv.Itoa(i % 1000))
+		}
+		sb.WriteString(`],"tail":true}`)
+		put(sb.String())
+		// (the model's string accumulator is quadratic: one long string of full size only in the thorough tier)
+		ssize := size
+		if ssize > 9000 && !(c.Tier == "thorough" && size == 70000) {
+			ssize = 9000
+		}
+		put(`{"s":"` + strings.Repeat("x", ssize) + `","tail":1}`)
+		put(`{"s":"` + strings.Repeat("x", ssize) + `","tail":}`)
+		put(strings.Repeat(" ", size) + `{"a":1}`)
+		put(`{"a":1}` + strings.Repeat("\n", size/10))
+		put("{\"a\":1,\n" + strings.Repeat(" ", size) + "\n\"b\": x}")
+	}
+	// blank space, blank lines and other text around the root; line endings; errors that cite a line
+	bodies := []string{`{"a":1}`, "{\n\"a\":1,\n\"b\":[1,\n2]\n}", "{\n\"a\": x}", "{\n\n\"a\":1,\n\"b\" 2}", "{\"a\":[1,\n{\"c\":tru}]}", "{\n\"a\":\"x\ny\",\n\"b\":}", "{", "{\"a\":1", ""}
+	leads := []string{"", "\n", "\n\n\n", "  ", " \n \n", "\r\n\r\n", "\t", "// header\n", "header\n\n", "\xEF\xBB\xBF", "\xEF\xBB\xBF\n", "\u2028", "\u2028\n", "\x00", "[1]\n", "}\n"}
+	trails := []string{"", "\n", "\n\n", "  ", " \n\n ", "\r\n", "\n\n\n\n", "x", "\n{}", "\n}", "\u2029\n"}
+	for _, b := range bodies {
+		for _, l := range leads {
+			put(l + b)
+			put(l + b + "\n\n")
+			put(l + strings.ReplaceAll(b, "\n", "\r\n"))
+		}
+		for _, t := range trails {
+			put(b + t)
+			put("\n" + b + t)
+			put("\n \n" + b + t)
+		}
+	}
+	// U+2028 / U+2029 / NEL / VT / FF are not line ends
+	for _, sep := range []string{"\u2028", "\u2029", "\u0085", "\v", "\f", "\r", "\r\r", "\n\r"} {
+		put("{" + sep + "\"a\":1," + sep + "\"b\": x}")
+		put("{\"s\":\"p" + sep + "q\"," + sep + "\n\"b\": x}")
+	}
+	// a list, a scalar, nothing
+	for _, s := range []string{"[1,2]", "1", "null", " ", "\n\n", "\"{\"", "\"s\" {\"a\":1}"} {
+		put(s)
+	}
+	for i := 0; i < nRandom; i++ {
+		var content string
+		switch r.Intn(6) {
+		case 0:
+			content = r.Container(opts, '{').Build().(at.Object).String()
+		case 1:
+			g := &jsonGen{r: r}
+			g.object(0)
+			content = "\n" + g.sb.String()
+		case 2:
+			content = r.Container(opts, '{').Build().(at.Object).FormatString(2)
+			if len(content) > 2 {
+				content = content[:r.Intn(len(content))]
+			}
+		case 3:
+			content = "{\"a\":\n\n x}"
+		default:
+			// ill-formed UTF-8 between the brackets: ParseFile must reject it exactly as ParseObject does
+			content = r.Container(opts, '{').Build().(at.Object).String()
+			pos := 1 + r.Intn(len(content)-1)
+			content = content[:pos] + []string{"\x80", "\xC3", "\xE2\x82", "\xC0\xAF", "\xED\xA0\x80", "\xFF"}[r.Intn(6)] + content[pos:]
+		}
+		put(content)
+	}
+	fileLine("missing", "", filepath.Join(dir, "does-not-exist.json"))
+	fileLine("dir", "", dir)
 }
 
 // ---------------------------------------------------------------- C07
@@ -995,6 +1071,7 @@ func runC07(c *Ctx) {
 	c.omoList("C07")
 	c.omoObj("C07")
 	c.derivedCorners("C07")
+	c.rawBytes("C07")
 	// long lists that differ only near the end, and deep trees that differ at the bottom
 	for _, n := range []int{255, 1023, 1024, 1025, 1026, 1027, 1030} {
 		for back := 1; back <= 4; back++ {
@@ -1329,6 +1406,7 @@ func runC20(c *Ctx) {
 			c.fn("parse", "O", hex.EncodeToString([]byte(text)), res, "line:"+strconv.Itoa(line))
 		}
 	}
+	c.fileStratum(50)
 }
 
 // ---------------------------------------------------------------- stdlib conformance
